@@ -714,24 +714,27 @@ def check_onehot_range(ctx, chk):
            txt == ["self.scenario_dict.get('address_space_bounds', "
                    "(len(self.scenario_dict['subnets']), max(self.scenario_dict['subnets'])))"],
            str(txt), sc.module.path)
-    gen = ctx.repo.func("nasim.scenarios.generator",
-                        "ScenarioGenerator._generate_address_space_bounds")
-    ip = Interp(ctx.repo, ctx.types, param_types={"self": "ScenarioGenerator"})
-    s = ip.run(gen)
-    cn = Canon(ip, ctx.layout)
+    # read from generate() with the private bounds helper inlined: the guards in terms of
+    # generate's own (public) parameter, wherever the None default is resolved
+    from .c15 import method_run, GEN_MOD
+    gen, ip, s, cn = method_run(ctx, "generate", no_inline=tuple(
+        n for n in ctx.repo.cls(GEN_MOD, "ScenarioGenerator").methods
+        if n not in ("generate", "_generate_address_space_bounds")))
     from .loaderfacts import extract_guards, closed
-    tests = [f_show(closed(g.F, g.loops)) for g in extract_guards(ip, cn, s.events)]
-    P = gen.params[1]
+    P = "address_space_bounds"
+    tests = [t for t in (f_show(closed(g.F, g.loops)) for g in extract_guards(ip, cn, s.events))
+             if P in t]
     need = [f"!tuple(({P} is None ? (len(self.subnets), max(self.subnets)) : {P}))[0]"
             f"<len(self.subnets)",
             f"!tuple(({P} is None ? (len(self.subnets), max(self.subnets)) : {P}))[1]"
             f"<max(self.subnets)"]
+    need = [n.replace("self.", "G.") for n in need]
     ok = all(n in tests for n in need)
     chk.ob("C09.onehot-range", "generator rejects bounds smaller than (#subnets, max subnet size)",
            ok, str(tests[-3:]), gen.module.path)
     # accept side: nothing but the documented shape of the bounds is demanded (a tuple/list of two
     # positive ints, at least as large as the network)
-    B = f"tuple(({P} is None ? (len(self.subnets), max(self.subnets)) : {P}))"
+    B = f"tuple(({P} is None ? (len(G.subnets), max(G.subnets)) : {P}))"
     allowed = set(need) | {
         f"((!None is {P} & isinstance({P}, (tuple, list))) | None is {P})",
         f"isinstance({P}, (tuple, list))",
